@@ -325,14 +325,14 @@ func newTimestampSelector(arg parser.Expr, storage *engstore.SelectorPool, opts 
 		hints.Start = start
 		hints.End = end
 		selector := storage.GetSelector(start, end, opts.Step.Milliseconds(), e.LabelMatchers, hints)
-		op, err := newShardedVectorSelector(selector, opts, timestampOffset(e), true)
+		op, err := newShardedTimestampSelector(selector, opts, e)
 		return op, err == nil, err
 	case *logicalplan.FilteredSelector:
 		start, end := timestampTimeRanges(e.VectorSelector, opts)
 		hints.Start = start
 		hints.End = end
 		selector := storage.GetFilteredSelector(start, end, opts.Step.Milliseconds(), e.LabelMatchers, e.Filters, hints)
-		op, err := newShardedVectorSelector(selector, opts, timestampOffset(e.VectorSelector), true)
+		op, err := newShardedTimestampSelector(selector, opts, e.VectorSelector)
 		return op, err == nil, err
 	}
 	return nil, false, nil
@@ -373,20 +373,36 @@ func unpackVectorSelector(t *parser.MatrixSelector) (*parser.VectorSelector, []*
 }
 
 func newShardedVectorSelector(selector engstore.SeriesSelector, opts *query.Options, offset time.Duration, selectTimestamp bool) (model.VectorOperator, error) {
+	return newShardedSelector(opts, func(pool *model.VectorPool, shard, numShards int) model.VectorOperator {
+		return scan.NewVectorSelector(pool, selector, opts, offset, shard, numShards, selectTimestamp)
+	})
+}
+
+func newShardedSelector(opts *query.Options, newShard func(pool *model.VectorPool, shard, numShards int) model.VectorOperator) (model.VectorOperator, error) {
 	numShards := runtime.GOMAXPROCS(0) / 2
 	if numShards < 1 {
 		numShards = 1
 	}
 	operators := make([]model.VectorOperator, 0, numShards)
 	for i := 0; i < numShards; i++ {
-		operator := exchange.NewConcurrent(
-			scan.NewVectorSelector(
-				model.NewVectorPool(stepsBatch), selector, opts, offset, i, numShards, selectTimestamp), 2)
+		operator := exchange.NewConcurrent(newShard(model.NewVectorPool(stepsBatch), i, numShards), 2)
 		operator = verifWrap(operator, nil, opts)
 		operators = append(operators, operator)
 	}
 
 	return exchange.NewCoalesce(model.NewVectorPool(stepsBatch), operators...), nil
+}
+
+// newShardedTimestampSelector builds the selector timestamp() reads. One that is
+// pinned with @ reads at the pinned time at every step, as the Prometheus engine
+// does, whether or not it is evaluated below a step-invariant node.
+func newShardedTimestampSelector(selector engstore.SeriesSelector, opts *query.Options, vs *parser.VectorSelector) (model.VectorOperator, error) {
+	if vs.Timestamp == nil {
+		return newShardedVectorSelector(selector, opts, timestampOffset(vs), true)
+	}
+	return newShardedSelector(opts, func(pool *model.VectorPool, shard, numShards int) model.VectorOperator {
+		return scan.NewPinnedTimestampSelector(pool, selector, opts, *vs.Timestamp, shard, numShards)
+	})
 }
 
 func newVectorBinaryOperator(e *parser.BinaryExpr, selectorPool *engstore.SelectorPool, opts *query.Options, hints storage.SelectHints) (model.VectorOperator, error) {
